@@ -434,6 +434,123 @@ func vC13GenStatic(e *vEnv, r *vRand, race bool) vCase {
 	return vCase{Ops: ops}
 }
 
+// ---------- generator: static chains around the common secret ----------
+
+// vC13GenCommon: chains of configurations in which the common `[backend] secret` is present, changed, removed and
+// added again (a scripted opening, then a random continuation), over backends with an own secret and backends
+// that rely on the common one (such a backend is configured only while a common secret exists, and answers with
+// the common secret of the file in force).  Many steps change nothing but the common secret or the own secret of
+// one backend; every url configured so far is looked up after every step, so that the url set and the secret
+// tied to each url are compared with a fresh start on every intermediate configuration as well.
+func vC13GenCommon(e *vEnv, r *vRand) vCase {
+	nh := 1 + r.intn(2)
+	const A, B = "cs-A", "cs-B"
+	scripts := [][]string{
+		{A, ""}, {A, B}, {A, "", A}, {A, "", B}, {"", A, ""}, {A, B, ""}, {"", A}, {A, A, ""}, {A, "", ""},
+	}
+	script := append([]string{}, scripts[r.intn(len(scripts))]...)
+	chain := r.chance(1, 4) // the common secret goes while every backend has an own one; a backend without comes later
+	if chain {
+		script = []string{r.pick([]string{A, B}), "", ""}
+	}
+	for k := r.intn(e.scale(4, 7)); k > 0; k-- {
+		script = append(script, r.pick([]string{"", "", A, B, B, script[len(script)-1]}))
+	}
+	var ents []vC13Ent
+	freeId := func() string { // an id no current entry has (at most 6 of the 7 are ever in use)
+		var free []string
+		for _, id := range vC13Ids {
+			used := false
+			for _, en := range ents {
+				used = used || en.id == id
+			}
+			if !used {
+				free = append(free, id)
+			}
+		}
+		return r.pick(free)
+	}
+	newEnt := func(own bool) vC13Ent {
+		en := vC13RandEnt(r, freeId(), nh)
+		if own {
+			en.secret = "s-" + en.id + "-" + strconv.Itoa(r.intn(3))
+		} else {
+			en.secret = ""
+		}
+		return en
+	}
+	n0 := 1 + r.intn(3)
+	for i := 0; i < n0; i++ {
+		ents = append(ents, newEnt(chain || r.chance(1, 2)))
+	}
+	if !chain && r.chance(3, 4) {
+		ents[r.intn(len(ents))].secret = "" // at least one backend that relies on the common secret
+	}
+	var cfgs []vC13Cfg
+	for step, common := range script {
+		if step > 0 {
+			switch k := r.intn(8); {
+			case chain && step == 1:
+				// nothing but the common secret changes
+			case chain && step == 2:
+				pos := r.intn(len(ents) + 1)
+				ents = append(ents[:pos], append([]vC13Ent{newEnt(false)}, ents[pos:]...)...)
+			case k <= 2:
+				// nothing but the common secret changes
+			case k == 3 && len(ents) > 0: // a backend loses / gets its own secret
+				en := &ents[r.intn(len(ents))]
+				if en.secret == "" {
+					en.secret = "s-" + en.id + "-" + strconv.Itoa(r.intn(3))
+				} else {
+					en.secret = ""
+				}
+			case k == 4 && len(ents) < 5: // a new backend, mostly without own secret
+				pos := r.intn(len(ents) + 1)
+				ents = append(ents[:pos], append([]vC13Ent{newEnt(r.chance(1, 4))}, ents[pos:]...)...)
+			case k == 5 && len(ents) > 1: // a backend goes
+				pos := r.intn(len(ents))
+				ents = append(append([]vC13Ent{}, ents[:pos]...), ents[pos+1:]...)
+			case k == 6 && len(ents) > 0: // another own secret
+				en := &ents[r.intn(len(ents))]
+				en.secret = "s-" + en.id + "-" + strconv.Itoa(3+r.intn(3))
+			default:
+				ents = vC13Mutate(r, ents, nh)
+			}
+		}
+		cfgs = append(cfgs, vC13Render(r, ents, common))
+	}
+	ops := []string{"mode static"}
+	seen := map[string]bool{}
+	var urls []string
+	for i, c := range cfgs {
+		if i == 0 {
+			ops = append(ops, "load "+c.tokens())
+		} else {
+			ops = append(ops, "reload "+c.tokens())
+		}
+		for _, s := range c.secs {
+			if ok, _, _, _ := vC13NormStatic(s.url); ok && !seen[s.url] {
+				seen[s.url] = true
+				urls = append(urls, s.url)
+			}
+		}
+		for _, u := range urls {
+			if ok, _, _, _, _ := vC13NormProbe(u); ok {
+				ops = append(ops, vC13ProbeLine(u))
+			}
+		}
+		if r.chance(1, 3) {
+			ops = append(ops, "list")
+		}
+	}
+	ops = append(ops, "list")
+	probes := vC13Probes(urls)
+	for i := 0; i < 6 && len(probes) > 0; i++ {
+		ops = append(ops, vC13ProbeLine(probes[r.intn(len(probes))]))
+	}
+	return vCase{Ops: ops}
+}
+
 // ---------- generator: etcd event sequences ----------
 
 type vC13Info struct {
@@ -564,6 +681,11 @@ func vC13Gen(e *vEnv, r *vRand) []vCase {
 	n = e.scale(120, 1500)
 	for i := 0; i < n; i++ {
 		cases = append(cases, vC13GenEtcd(e, r.fork(), false))
+	}
+	// the common secret: present, changed, removed, added again; backends with and without an own secret
+	n = e.scale(120, 1200)
+	for i := 0; i < n; i++ {
+		cases = append(cases, vC13GenCommon(e, r.fork()))
 	}
 	// lookups running concurrently with reloads / etcd events (watchdog)
 	n = e.scale(6, 60)
